@@ -15,12 +15,13 @@ func init() {
 		ID:   "C10",
 		Rule: "payloader side: one case = (MTU, StapA on/off, AVC on/off, 1-3 (thorough: 4) NAL units with type, NRI, size relative to the MTU and start-code length, position of the call boundary); decoder side: one case = an arrangement of up to 3 groups (single NAL / STAP-A of 1-3 units / FU-A train with chosen split points) written by the reference encoder; non-trivial = at least one unit is fragmented or aggregated",
 		Assumptions: []string{
-			"MTU in {3,4,5,6,7,8,16,17,100}; unit types {1,5,7,8,9,12} (+6,23 in short sequences); sizes {2,3,MTU-1,MTU,MTU+1,2MTU+1}; bodies contain no zero byte (Annex-B conformant: no start-code emulation, no trailing zero); a final type-1 unit is appended so that held-back parameter sets have a next unit",
+			"MTU in {3,4,5,6,7,8,16,17,100}; unit types {1,5,7,8,9,12} (+6,23 in short sequences); sizes {2,3,MTU-1,MTU,MTU+1,2MTU+1}; bodies contain no zero byte (Annex-B conformant: no start-code emulation, no trailing zero); a final type-1 unit is appended so that held-back parameter sets have a next unit; a separate scenario sweeps SPS/PPS sizes so that STAP-A(SPS,PPS) is one byte under, exactly at and one byte over every MTU 9..40",
 			"the hold-back anomalies of H264Payloader for parameter sets that are not an SPS immediately followed by a PPS, and the silent drop of a STAP-A larger than the MTU, are listed known findings matched by an exact defect model of the hold-back state machine",
 			"decoder side: F bit 0, FU-A trains of 2-4 fragments with every split point of units of up to 8 bytes",
 		},
 		Scenarios: []mc.Scenario{
 			{Name: "payloader-to-depacketizer", Tiers: "qt", ShardDepth: 4, Run: c10Roundtrip},
+			{Name: "stapa-at-the-mtu-boundary", Tiers: "qt", ShardDepth: 3, Run: c10StapABoundary},
 			{Name: "reference-encoder-to-depacketizer", Tiers: "qt", ShardDepth: 3, Run: c10Decoder},
 		},
 	})
@@ -119,6 +120,31 @@ func c10Roundtrip(c *mc.Ctx) {
 	}
 	raw = append(raw, ref.H264Unit(1, 2, 2, 0xEE))
 	codes = append(codes, 4)
+	c10Core(c, mtu, disableStapA, avc, raw, codes, split)
+}
+
+// c10StapABoundary: an SPS/PPS pair whose STAP-A is one byte under, exactly at, or one
+// byte over the MTU, followed by a slice.
+func c10StapABoundary(c *mc.Ctx) {
+	mtu := 9 + c.Pick(32)
+	maxA := mtu - 7
+	if maxA > 12 {
+		maxA = 12
+	}
+	a := 2 + c.Pick(maxA-1)
+	delta := c.Pick(3) - 1
+	b := mtu - 5 - a + delta
+	if b < 2 {
+		return
+	}
+	slice := mc.From(c, []int{2, mtu, mtu + 1})
+	avc := c.Bool()
+	split := c.Pick(3)
+	raw := [][]byte{ref.H264Unit(7, 3, a, 1), ref.H264Unit(8, 3, b, 2), ref.H264Unit(5, 2, slice, 3), ref.H264Unit(1, 2, 2, 0xEE)}
+	c10Core(c, mtu, false, avc, raw, []int{3, 4, 3, 4}, split)
+}
+
+func c10Core(c *mc.Ctx, mtu int, disableStapA, avc bool, raw [][]byte, codes []int, split int) {
 	var calls [][][]byte
 	var callCodes [][]int
 	if split > 0 {
